@@ -249,6 +249,27 @@ func runC04(c *Ctx, w *World, r *Report) {
 			}
 		}
 		r.Check(badR == "", "R-RANGE", n, w.Pos(fn.Pos()), badR, "i from from>>32 while i < min((to>>32)+1, Bit[height]); tz from min(TZ(i),height) down to 0")
+
+		// R-EARLYRET: a return taken before the walk starts gives up the whole range; that is right only when the range is empty
+		r.Rule("R-EARLYRET", "a return of AllPaths that is not reached through the walk over the search values (an early exit) lies on an edge where from >= to is established exactly: any other shortcut drops paths of a non-empty range")
+		badE := ""
+		nearly := 0
+		if iv != nil {
+			if phi, ok := stripConv(iv).(*ssa.Phi); ok {
+				hdr := phi.Block()
+				for _, ret := range returnsOf(fn) {
+					if hdr.Dominates(ret.Block()) {
+						continue
+					}
+					nearly++
+					bd := fa.BoundsAt(ret.Block(), fa.Lin(fn.Params[1]).Sub(fa.Lin(fn.Params[2])))
+					if !bd.HasLo || bd.Lo < 0 {
+						badE = fmt.Sprintf("the return at %s leaves before the walk on an edge where from - to is only known to be in %s: a non-empty range can take it", w.InstrPos(ret), bd)
+					}
+				}
+			}
+		}
+		r.Check(badE == "", "R-EARLYRET", n, w.Pos(fn.Pos()), badE, fmt.Sprintf("%d early returns, each under from >= to", nearly))
 	}
 	{
 		n := "bmtree.Decode"
